@@ -4,6 +4,7 @@ import (
 	"fmt"
 	"sort"
 	"strings"
+	"sync"
 	"time"
 
 	prom "github.com/prometheus/client_golang/prometheus"
@@ -219,8 +220,77 @@ func runC17Race(c *Ctx, r *Rng) {
 	c.Cov.Schedules++
 }
 
+// runC17MixedKinds: free-running -- a timer and a histogram (or a counter and a gauge) of ONE name and key set are first
+// used by two goroutines released together (spinning barrier), on a fresh reporter every round.  "Whenever a name is
+// reused for another kind of metric the caller still gets a usable, possibly no-op, metric: never a nil dereference or
+// other panic" -- also when the two first uses race.  Oracle: neither call panics, both returned metrics accept a
+// recording, the rejected one reached the (non-panicking) callback at most once, Gather succeeds.
+func runC17MixedKinds(c *Ctx, r *Rng, rounds int, pair int) {
+	names := []string{"summary timer + value histogram", "histogram timer + value histogram (same kind of family)", "counter + gauge"}
+	line := fmt.Sprintf("%d rounds: %s of one name and key set first used by two goroutines at the same time", rounds, names[pair])
+	for i := 0; i < rounds; i++ {
+		reg := prom.NewRegistry()
+		var mu sync.Mutex
+		cb := 0
+		tt := prometheus.SummaryTimerType
+		if pair == 1 {
+			tt = prometheus.HistogramTimerType
+		}
+		rep := prometheus.NewReporter(prometheus.Options{Registerer: reg, DefaultTimerType: tt,
+			OnRegisterError: func(error) { mu.Lock(); cb++; mu.Unlock() }})
+		tags := map[string]string{"zone": "z", "env": "e"}
+		bar := newC20Barrier(2)
+		var pans [2]interface{}
+		var wg sync.WaitGroup
+		for g := 0; g < 2; g++ {
+			g := g
+			wg.Add(1)
+			go func() {
+				defer wg.Done()
+				bar.Wait()
+				_, v := catch(func() {
+					switch {
+					case pair == 2 && g == 0:
+						rep.AllocateCounter("fam", tags).ReportCount(1)
+					case pair == 2:
+						rep.AllocateGauge("fam", tags).ReportGauge(1)
+					case g == 0:
+						rep.AllocateTimer("fam", tags).ReportTimer(time.Millisecond)
+					default:
+						rep.AllocateHistogram("fam", tags, tally.ValueBuckets{1, 2}).ValueBucket(1, 2).ReportSamples(1)
+					}
+				})
+				pans[g] = v
+			}()
+		}
+		wg.Wait()
+		for g, v := range pans {
+			if v != nil {
+				c.Cov.Fail(Failure{Kind: "violated", Clause: "conflict-never-panics", Signature: "c17-race-mixed-kinds", Line: line,
+					Reply: fmt.Sprintf("round %d, goroutine %d: %v", i, g, v)})
+				return
+			}
+		}
+		if cb > 1 {
+			c.Cov.Fail(Failure{Kind: "violated", Clause: "rejected-registration-reaches-callback-once", Signature: "c17-race-mixed-kinds", Line: line,
+				Reply: fmt.Sprintf("round %d: the error callback was invoked %d times for two first uses", i, cb)})
+			return
+		}
+		if _, err := reg.Gather(); err != nil {
+			c.Cov.Fail(Failure{Kind: "violated", Clause: "gather", Signature: "c17-race-mixed-kinds", Line: line, Reply: err.Error()})
+			return
+		}
+	}
+	c.Cov.Hit("mixed-kinds." + names[pair])
+	c.Cov.Eval(line+fmt.Sprint(r.U64()), true)
+	c.Cov.Schedules++
+}
+
 func suiteC17Race(c *Ctx) {
-	c.Cov.Rule = "2-3 threads make the first use of one metric family (counter, gauge, summary timer, histogram timer, value / duration histogram; same tag keys, same or different values) at the same time; the harness-supplied Registerer is a schedule point, so a thread can be parked after deciding to register and before registering; sampled schedules; oracle: no panic, no registration-error callback, every thread's series exposed with exactly what was recorded through its handle, series separate; nontrivial = some thread was parked inside Register; distinct by schedule"
+	for i := 0; i < 6; i++ {
+		runC17MixedKinds(c, c.Rng.Fork(), c.N(150, 1500), i%3)
+	}
+	c.Cov.Rule = "2-3 threads make the first use of one metric family (counter, gauge, summary timer, histogram timer, value / duration histogram; same tag keys, same or different values) at the same time; the harness-supplied Registerer is a schedule point, so a thread can be parked after deciding to register and before registering; sampled schedules; plus free-running rounds in which two goroutines released together make the first use of ONE name for two kinds (timer / histogram, counter / gauge) on a fresh reporter: no panic, at most one callback; oracle: no panic, no registration-error callback, every thread's series exposed with exactly what was recorded through its handle, series separate; nontrivial = some thread was parked inside Register; distinct by schedule"
 	n := c.N(120, 2500)
 	for i := 0; i < n; i++ {
 		runC17Race(c, c.Rng.Fork())
